@@ -16,14 +16,14 @@ static void nx_choice(void)
 static const char *pcodes[] = {
 	"a", "Cab", "g", "Cha", "Cai", "Chi", "Cja", "Cak", "CjCaCbk", "*a", "*l", "c", "Aab", "CGa?Gb", "+d", "AGab",
 	"CG*aG*b", "2a", "j", "k", "i", "h", "*b", "Cj*a", "CcCkc", "Ce*a", "C*ai", "AChai", "G*a", "CGAabGc", "Cm*a", "+f",
-	"n", "o", "*n", "Cno", "+o",	/* bracket expressions with a multi-byte member: a match never starts inside a character */
+	"n", "o", "*n", "Cno", "+o", "*g", "Ca*g", "C+ga", "?g",	/* bracket expressions with a multi-byte member: a match never starts inside a character */
 };
 #define NPC ((int) (sizeof(pcodes) / sizeof(pcodes[0])))
 
 static const char *reps[] = {"", "X", "\\0", "\\1", "\\2", "[\\1\\2]", "\\\\", "\\/", "\\x", "\xc3\xa9", "<\\0\\0>", "\\9", "\\n", "a\\tb", "x|y", "\\/|y"};
 #define NREP 16
-static const char *lalpha[] = {"a", "b", " ", "\xc3\xa9", "A"};
-#define NLA 5
+static const char *lalpha[] = {"a", "b", " ", "\xc3\xa9", "A", "\xc3\xa8"};	/* U+00E8 shares its lead byte with U+00E9 */
+#define NLA 6
 
 static char (*lines)[32];
 static long nlines;
